@@ -311,6 +311,9 @@ func (o *Oracles) checkWaitResult(w *World, e *Event) {
 // settled: nothing more will happen without a client: the pipeline is terminal with every
 // plugin session closed, or it is running and every record has been acknowledged.
 func (o *Oracles) settled(w *World) bool {
+	if w.gatesParked() > 0 {
+		return false // a preempted goroutine of the engine still has work to do
+	}
 	if len(o.ctl.inFlight) > 0 {
 		for cl := range o.ctl.inFlight {
 			if cl != "main" && !strings.HasPrefix(o.ctl.callNote[cl], "wait") {
